@@ -51,6 +51,13 @@ def spec_src(s):
     return ("not " if s["neg"] else "") + s["txt"]
 
 
+STATE_SRC = ["pyscript.x", "pyscript.w"]
+
+
+def event_name(j):
+    return "pv_go" if j == 0 else f"pv_go{j}"
+
+
 def once_str(us):
     d = dt_of_us(us)
     return f"once({d.year}/{d.month:02d}/{d.day:02d} {d.hour:02d}:{d.minute:02d}:{d.second:02d}.{d.microsecond:06d})"
@@ -71,15 +78,19 @@ def build_script(case):
     order = [ta_line, sa_line] if case.get("ta_first") else [sa_line, ta_line]
     guards = [g for g in order if g]
     trigs = []
+    ntrig = case.get("ntrig", {})          # repeated trigger decorators of one kind (legacy: one TrigInfo each)
     if "held" in kinds:
         trigs.append(f'@state_trigger("pyscript.x", state_hold={case["state_hold"] / TICK!r})')
     elif "state" in kinds:
-        trigs.append('@state_trigger("pyscript.x")')
+        for j in range(ntrig.get("state", 1)):
+            trigs.append(f'@state_trigger("{STATE_SRC[j]}")')
     if "event" in kinds:
-        trigs.append('@event_trigger("pv_go")')
-    times = [o["w"] for o in case["ops"] if o["k"] == "time"]
+        for j in range(ntrig.get("event", 1)):
+            trigs.append(f'@event_trigger("{event_name(j)}")')
     if "time" in kinds:
-        trigs.append("@time_trigger(" + ", ".join(repr(once_str(w)) for w in times) + ")" if times else '@time_trigger("once(2001/01/01 00:00:00)")')
+        for j in range(ntrig.get("time", 1)):
+            times = [o["w"] for o in case["ops"] if o["k"] == "time" and o.get("src", 0) == j]
+            trigs.append("@time_trigger(" + ", ".join(repr(once_str(w)) for w in times) + ")" if times else '@time_trigger("once(2001/01/01 00:00:00)")')
     if not trigs:
         trigs.append('@event_trigger("pv_go")')
     if case.get("trig_above"):
@@ -88,7 +99,7 @@ def build_script(case):
         decs = guards + trigs
     src = "\n".join(decs) + """
 def f(**kw):
-    event.fire("pv_run", seq=kw.get("seq"), tt=kw.get("trigger_type"), value=str(kw.get("value")), ttime=str(kw.get("trigger_time")))
+    event.fire("pv_run", seq=kw.get("seq"), tt=kw.get("trigger_type"), value=str(kw.get("value")), var=str(kw.get("var_name")), ttime=str(kw.get("trigger_time")))
 
 @event_trigger("pv_call")
 def caller(seq=None, **kw):
@@ -212,14 +223,14 @@ async def scenario(case):
                 for op in group:
                     k = op["k"]
                     if k == "event":
-                        hass.bus.async_fire("pv_go", {"seq": occ_idx})
+                        hass.bus.async_fire(event_name(op.get("src", 0)), {"seq": occ_idx})
                         expect.append(("event", occ_idx, None))
                     elif k == "direct":
                         hass.bus.async_fire("pv_call", {"seq": occ_idx})
                         expect.append(("direct", occ_idx, None))
                     elif k == "state":
-                        hass.states.async_set("pyscript.x", str(op["v"]))
-                        expect.append(("state", None, str(op["v"])))
+                        hass.states.async_set(STATE_SRC[op.get("src", 0)], str(op["v"]))
+                        expect.append(("state", STATE_SRC[op.get("src", 0)], str(op["v"])))
                     elif k == "sety":
                         hass.states.async_set("pyscript.y", str(op["v"]))
                         continue
@@ -227,7 +238,7 @@ async def scenario(case):
                         hass.states.async_set("pyscript.x", str(op["v"]))
                         continue
                     elif k == "held":
-                        expect.append(("state", None, str(op["v"])))
+                        expect.append(("state", "pyscript.x", str(op["v"])))
                     elif k == "time":
                         expect.append(("time", None, str(dt_of_us(op["w"]))))
                     occ_idx += 1
@@ -243,7 +254,7 @@ async def scenario(case):
                             continue
                         if tt in ("event", "direct") and r.get("seq") != seq:
                             continue
-                        if tt == "state" and r.get("value") != val:
+                        if tt == "state" and (r.get("value") != val or r.get("var") != seq):
                             continue
                         if tt == "time" and r.get("ttime") != val:
                             continue
